@@ -233,7 +233,7 @@ pub fn build(rng: &mut Rng, tier: u32) -> LiveBuilt {
                         call("blk.new", k as u64, 0);
                         let b = Blocker::current();
                         ret("blk.new", k as u64);
-                        *s2.cur.lock().unwrap() = Some(b.clone());
+                        *s2.cur.lock().unwrap_or_else(|e| e.into_inner()) = Some(b.clone());
                         blk = Some(b);
                     }
                     s2.at.store(i, SeqCst);
@@ -257,9 +257,9 @@ pub fn build(rng: &mut Rng, tier: u32) -> LiveBuilt {
                                     Err(may::coroutine::ParkError::Canceled) => 2,
                                 });
                                 if res.is_err() {
-                                    s2.fails.lock().unwrap().push(format!("round {i}: the untimed park returned {res:?}"));
+                                    s2.fails.lock().unwrap_or_else(|e| e.into_inner()).push(format!("round {i}: the untimed park returned {res:?}"));
                                 } else if s2.go.load(SeqCst) < i {
-                                    s2.fails.lock().unwrap().push(format!(
+                                    s2.fails.lock().unwrap_or_else(|e| e.into_inner()).push(format!(
                                         "spurious: round {i}: park() on a fresh blocker returned Ok before the blocker's only unpark was issued"
                                     ));
                                 }
@@ -270,7 +270,7 @@ pub fn build(rng: &mut Rng, tier: u32) -> LiveBuilt {
                     s2.done.store(i, SeqCst);
                     if let Some(b) = blk {
                         call("blk.drop", k as u64, 0);
-                        let c = s2.cur.lock().unwrap().take();
+                        let c = s2.cur.lock().unwrap_or_else(|e| e.into_inner()).take();
                         drop(c);
                         drop(b);
                         ret("blk.drop", 0);
@@ -283,7 +283,7 @@ pub fn build(rng: &mut Rng, tier: u32) -> LiveBuilt {
             let (s3, c3) = (sh.clone(), co.clone());
             let unpark_once: Arc<dyn Fn(usize) + Send + Sync> = Arc::new(move |i: usize| {
                 if on_blocker {
-                    let b = s3.cur.lock().unwrap().clone();
+                    let b = s3.cur.lock().unwrap_or_else(|e| e.into_inner()).clone();
                     if let Some(b) = b {
                         call("blk.unpark", (i - 1) as u64, 0);
                         b.unpark();
@@ -383,7 +383,7 @@ pub fn build(rng: &mut Rng, tier: u32) -> LiveBuilt {
                 // the parker is left behind (its handle is leaked so that nothing of it is torn down under its feet)
                 std::mem::forget(h);
                 std::mem::forget(co);
-                out.extend(sh.fails.lock().unwrap().drain(..));
+                out.extend(sh.fails.lock().unwrap_or_else(|e| e.into_inner()).drain(..));
                 return out;
             }
             if h.join().is_err() {
@@ -411,7 +411,7 @@ pub fn build(rng: &mut Rng, tier: u32) -> LiveBuilt {
             if out.is_empty() && d != rounds {
                 out.push(format!("parker finished {d} of {rounds} rounds"));
             }
-            out.extend(sh.fails.lock().unwrap().drain(..));
+            out.extend(sh.fails.lock().unwrap_or_else(|e| e.into_inner()).drain(..));
             out
         }),
     }
